@@ -35,15 +35,15 @@ TEXT = {
             "death points inside the save are excluded here (C13's subject)"),
     'C11': ('exploration', '7 C11', "Liveness as bounded progress: S1 flags wait() with nothing in flight (spin) and caps wait() calls; S2 requires run_tasks to finish within 10 polling rounds of the last worker event and aborts on deadlock / 20 000 scheduler steps / 600 virtual seconds; random kills, kills after the result was queued, max_workers=1, progress displays on and off.",
             "virtual-time assumption: coordinator CPU steps are instantaneous relative to the 0.5 s poll"),
-    'C12': ('fault_enumeration', '7 C12', "Single-fault enumeration: a fault-free reference execution of each configuration (cache format x result shape small / multi-frame / unpicklable-at-depth x first save / overwrite; thorough: x serial / S1 / simulated fork / simulated spawn) lists every injection point of the save - each storage call, each write/flush/close, a torn variant of each write, each executed line - and there is one run per point; afterwards a new Lab must either not report the task, or load a complete acceptable value. Exhaustive over the points of the reference executions.",
+    'C12': ('fault_enumeration', '7 C12', "Single-fault enumeration: a fault-free reference execution of each configuration (cache format x result shape small / multi-frame / unpicklable-at-depth x first save / overwrite; thorough: x serial / S1 / simulated fork / simulated spawn) lists every injection point of the save - each storage call, each write/flush/close, a torn variant of each write, each executed line - and there is one run per point; afterwards a new Lab - and the very Lab / storage / cache objects of the session that failed - must either not report the task, or load a complete acceptable value; overwrites are preceded by a cache hit in the same session. Exhaustive over the points of the reference executions.",
             "single faults only; injection points are those of the reference execution (a run that does not reach its point is a harness error)"),
-    'C13': ('fault_enumeration', '7 C13', "Kill-point enumeration in the simulated process backends: the worker is killed (frozen for ever, no finally, no with-exit) at every yield point of its save phase - storage calls, write/flush/close boundaries, line boundaries of the save path, a split inside writes larger than a page - each with user-space buffers lost and flushed first; first save and overwrite; afterwards a new Lab must either not report the task or load a complete old/new value. Exhaustive over the kill points of the reference executions.",
+    'C13': ('fault_enumeration', '7 C13', "Kill-point enumeration in the simulated process backends: the worker is killed (frozen for ever, no finally, no with-exit) at every yield point of its save phase - storage calls, write/flush/close boundaries, line boundaries of the save path, a split inside writes larger than a page - each with user-space buffers lost and flushed first; first save and overwrite; a recursive delete inside the save is file-by-file; afterwards a new Lab must either not report the task or load a complete old/new value. Exhaustive over the kill points of the reference executions; plus a real-OS probe that SIGKILLs a real forked worker at the k-th file operation of its save.",
             "process-kill semantics only (OS page cache survives); interleavings inside one storage operation (e.g. a half-finished rmtree) are not modelled"),
-    'C14': ('fault_enumeration', '7 C14', "Serial backend: one run per line-event index executed by the calling thread inside labtech during run_tasks (exhaustive for two fixed workloads, ~5 300 instants) plus sampled interrupt pairs; process backends (simulated fork/spawn): seeded search over DAGs, schedules and one or two interrupt instants, delivered at main-thread line boundaries or while the main thread is blocked in the helper thread's join, to the whole foreground group according to each process's recorded SIGINT disposition and signal mask (a blocked SIGINT stays pending, an ignored one is discarded; forked children inherit the mask, spawned ones do not). Oracle: KeyboardInterrupt and nothing else, no process/task start after the interrupt, executing workers finish and their results are cached (single) or are dead without a further worker step (double), every entry reported cached afterwards loads a correct value.",
+    'C14': ('fault_enumeration', '7 C14', "Serial backend: one run per line-event index executed by the calling thread inside labtech during run_tasks (exhaustive for two fixed workloads, ~5 300 instants) plus sampled interrupt pairs; process backends (simulated fork/spawn): every main-thread line boundary of fixed workloads and schedules (single interrupt, enumerated) plus a seeded search over DAGs, schedules and one or two interrupt instants, delivered at main-thread line boundaries or while the main thread is blocked in the helper thread's join, to the whole foreground group according to each process's recorded SIGINT disposition and signal mask (a blocked SIGINT stays pending, an ignored one is discarded; forked children inherit the mask, spawned ones do not). Oracle: KeyboardInterrupt and nothing else, no process/task start after the interrupt, executing workers finish and their results are cached (single) or are dead without a further worker step (double), every entry reported cached afterwards loads a correct value; plus real killpg(SIGINT), single and double, at a resting point of real fork and spawn runs.",
             "interrupt instants are line boundaries of labtech's own code plus blocked seam operations; instants inside the standard library are attributed to the calling labtech line"),
     'C16': ('exploration', '7 C16', "At the process-creation seam every worker of the fork/spawn backend must be requested from the fork/spawn context; context seen inside run() equals filter_context(lab.context); storage is byte-identical between runs differing only in context; (also for results that contain task objects); plus a real-OS probe (pid, ppid, module global mutated by the parent) on the three real backends, alone and after another process backend was used in the same interpreter.",
             "the real-OS half has no schedule dependence and is a real-execution probe, declared as such"),
-    'C19': ('exploration', '7 C19', "Simulated fork and spawn backends; every node emits a drawn pattern of uniquely tokenised labtech.logger records, printed lines, stderr lines, partial writes and explicit flushes; a handler on the caller's logger must have received each required token exactly once before run_tasks returns; the scheduler decides which worker finishes in the last polling round.",
+    'C19': ('exploration', '7 C19', "Simulated fork and spawn backends; every node emits a drawn pattern of uniquely tokenised labtech.logger records, printed lines, stderr lines, partial writes and explicit flushes; a handler on the caller's logger must have received each required token exactly once before run_tasks returns; the scheduler decides which worker finishes in the last polling round; some emitters die right after emitting (what had left their process is still due); plus the same message kinds on the real fork and spawn backends.",
             "exit-flush ordering of BaseProcess._bootstrap (and the second flush at interpreter finalisation of a spawned child) is modelled from the CPython 3.12 source and was compared with the real backends by hand"),
     'C17': ('exploration', '7 C17', "A pass-through spy around the real Serial/Fork/Spawn runners and the S1 runner checks with Runner.get_result (pure read) that results stay until the last direct dependent finished and are gone afterwards, that nothing is held at return and that requested results reach the return value, over completion orders, failure patterns and all 16 hash-seed classes.",
             "weak-reference liveness only where result objects are local (S0/S1)"),
